@@ -83,6 +83,11 @@ def _tolerance(kind, a, tv, sc):
     return 1e-4 * unit if not in_band(kind, a) else max(1e-2, 5e-6 / max(a[0], 1e-300)) * unit
 
 
+# "for every size": length units other than the micrometre. The sphere / cap / frustum / two-sphere closed forms of the library are
+# homogeneous polynomials of the lengths (no absolute tolerance), so they are judged at every unit. The sphere-frustum forms carry the
+# library's absolute eps = 1e-6 bands (DESIGN §8: excluded from the claim in absolute terms), so they are NOT asked at these units.
+SMALL_UNITS = [1e-5, 1e-6, 1e-7, 1e-8, 1e-9]
+SMALL_KINDS = ("sphere", "cap", "frustum", "lens", "union2")
 # "all orientations / everywhere in space": distance of the solids from the origin in units of their own size. Volumes are
 # translation invariant, so the closed forms (which derive d and h from the stored centres) must not depend on it. 1e5 is a
 # whole-brain coordinate in micrometres next to a radius of 1; in float64 it costs ~1e-11 of relative accuracy.
@@ -151,6 +156,8 @@ class Closed(Suite):
         def add(kind, a, cls, **extra):
             # "for every size": the same configuration at several length scales (exact powers of two / ten on dyadic inputs)
             sc = rng.choice([1.0, 1.0, 1.0, 1e-3, 1 / 64, 128.0, 1e-2])
+            if extra.get("unit") is not None:
+                sc = extra["unit"]
             fam = extra.get("family")
             for key in ("step", "base"):                 # lengths of the lattice placement scale with the configuration
                 if extra.get(key) is not None:
@@ -223,6 +230,18 @@ class Closed(Suite):
             kind = COMPOSITE[i % len(COMPOSITE)]
             a, cls = pick(kind)
             add(kind, a, cls, family="handover", hand=rng.choice(["f64", "row", "strided"]), then=rng.choice(["buffer", "overwrite"]))
+        # --- "for every size": the unit of length is the caller's. The same configurations in a unit in which radii are of order
+        #     10^-5 … 10^-9 (SI metres, millimetres of a sub-micron reconstruction); the whole scene is scaled, its position included.
+        #     Only the kinds whose closed form is a pure polynomial of the lengths in the unchanged library (SMALL_KINDS).
+        for i in range(n):
+            for kind in ("lens", "union2", SMALL_KINDS[i % 3]):
+                if kind == "sphere":
+                    a, cls = [g()], "-"
+                elif kind == "cap":
+                    r = g(); a, cls = [r, rng.choice([0.0, r, 2 * r, rng.uniform(0, 2 * r)])], "-"
+                else:
+                    a, cls = pick(kind)
+                add(kind, a, cls, family="small-units", unit=rng.choice(SMALL_UNITS))
         # --- orientation in space: the axis (frustum axis / line of centres) exactly along a lattice direction
         def lattice(kind, u, orient, taper=None):
             a, cls = pick(kind, taper)
@@ -265,6 +284,8 @@ class Closed(Suite):
         kind, a = case["kind"], case["a"]
         R, off = _rot(rng)
         size = max(max(a), 1e-300)
+        if case.get("unit"):
+            off = off * case["unit"]                    # the scene is in the caller's unit: its position scales with it
         if case.get("far"):
             u = np.array([rng.gauss(0, 1) for _ in range(3)])
             off = u / np.linalg.norm(u) * case["far"] * size
@@ -369,6 +390,8 @@ class Closed(Suite):
         where = ""
         if fam == "far":
             where = f" [solids placed {case['far']:g} x their size away from the origin]"
+        elif fam == "small-units":
+            where = f" [lengths in a unit of {case['unit']:g}: the same configuration with radii of order 1 is {[x / case['unit'] for x in a]}]"
         elif fam == "handover":
             where = f" [centres handed over as {case['hand']}; caller's own arrays afterwards: {case['then']}]"
         elif case.get("axis"):
